@@ -938,16 +938,22 @@ class Parser:
         self._tokenizer._with_macro = False
         return ast.With(items=[a], body=[ast.Pass(**locs)], **locs)
 
+    # A macro start switches the token source to raw capture for the text that follows. When that text has been read
+    # before (the second, diagnostic pass, or a re-parse after backtracking) its MACRO_PARAM tokens are in the token
+    # cache already and the switch must stay off, or it would swallow whatever the token source delivers next.
     def handle_func_macro_start(self, a: ast.expr) -> ast.expr:
-        self._tokenizer._call_macro = True
+        if self._tokenizer.at_frontier():
+            self._tokenizer._call_macro = True
         return a
 
     def handle_with_macro_start(self, a: ast.withitem) -> ast.withitem:
-        self._tokenizer._with_macro = True
+        if self._tokenizer.at_frontier():
+            self._tokenizer._with_macro = True
         return a
 
     def handle_proc_macro_start(self, a: TokenInfo) -> TokenInfo:
-        self._tokenizer._proc_macro = True
+        if self._tokenizer.at_frontier():
+            self._tokenizer._proc_macro = True
         return a
 
     def proc_macro_arg(self, a: list[TokenInfo | str], **locs: int) -> ast.Constant:
